@@ -193,11 +193,22 @@ pub fn jobs(tier: Tier) -> Vec<Job> {
                     if tier == Tier::Quick && seq.len() == 3 && f == Fee::Legacy10 && spec == SpecId::BERLIN {
                         continue;
                     }
+                    // quick: half of the blocks of three (thorough: all)
+                    if tier == Tier::Quick && seq.len() == 3 && (seq[0] + 2 * seq[1] + 3 * seq[2]) % 2 == 1 {
+                        continue;
+                    }
                     let name = format!("c07:{role:?}:{f:?}");
                     let Some(mut case) = build_case(&name, spec, &db, &templates, &seq) else { continue };
                     case.env.beneficiary = beneficiary_of(role);
                     let bound = match (tier, seq.len()) {
-                        (Tier::Quick, 2) if spec == SpecId::CANCUN && seq.iter().any(|&t| t == 2 || t == 3 || t == 4) && f == Fee::Tip3 => 2,
+                        (Tier::Quick, 2)
+                            if spec == SpecId::CANCUN &&
+                                matches!(seq[1], 2 | 3 | 4) &&
+                                f == Fee::Tip3 &&
+                                matches!(role, Role::Absent | Role::Sender | Role::ContractWithStorage | Role::NearOverflow | Role::CreatedInBlock | Role::SelfDestructing) =>
+                        {
+                            2
+                        }
                         (Tier::Quick, _) => 1,
                         (Tier::Thorough, 2) => 3,
                         (Tier::Thorough, _) => 2,
